@@ -254,6 +254,12 @@ struct PlayOut {
 /// player stalls (`max_stall` consecutive calls that could have produced data but returned 0),
 /// then makes three more calls with a non-trivial buffer to observe the end report.
 fn drive<AY: AymBackend, S: PlayerSample + Bits>(p: &mut Player<AY>, part: &[usize], stereo: bool, expect_total: usize) -> PlayOut {
+    drive_disturbed::<AY, S>(p, part, stereo, expect_total, None)
+}
+
+/// `disturb`: after that many play() calls the caller asks for a frame that does not exist
+/// (`set_frame` refuses and must leave the playback alone)
+fn drive_disturbed<AY: AymBackend, S: PlayerSample + Bits>(p: &mut Player<AY>, part: &[usize], stereo: bool, expect_total: usize, disturb: Option<(usize, usize)>) -> PlayOut {
     let mut out = PlayOut { stream: Vec::with_capacity(expect_total), calls: vec![], overrun: false };
     let min_useful = if stereo { 2 } else { 1 };
     let mut i = 0usize;
@@ -270,6 +276,12 @@ fn drive<AY: AymBackend, S: PlayerSample + Bits>(p: &mut Player<AY>, part: &[usi
             break;
         }
         out.stream.extend(buf[..n].iter().map(|s| s.bits()));
+        if let Some((after, bad_frame)) = disturb {
+            if out.calls.len() == after && p.set_frame(bad_frame) {
+                out.overrun = true; // a frame beyond the end was accepted
+                break;
+            }
+        }
         if len >= min_useful {
             if n == 0 {
                 stall += 1;
@@ -304,6 +316,7 @@ struct Stats {
     sched_cases: u64,
     long_logs: u64,
     second_passes: u64,
+    refused_seeks: u64,
     diff_cases: u64,
     ref_cases: u64,
     decode_cases: u64,
@@ -366,7 +379,11 @@ fn schedule_case(ctx: &Ctx, rng: &mut Rng, id: u64, st: &mut Stats) {
     let loop_start = if nf > 0 { rng.below(nf.min(65_536) as u64) as usize } else { 0 };
     vt.loop_start_frame = loop_start as u16;
     let mut p = Player::<Rec>::new(vt, rate, stereo);
-    let out = drive::<Rec, f64>(&mut p, &part, stereo, total * ch);
+    let disturb = if rng.chance(1, 3) && nf > 0 { Some((1 + rng.below(6) as usize, nf + rng.below(3) as usize)) } else { None };
+    if disturb.is_some() {
+        st.refused_seeks += 1;
+    }
+    let out = drive_disturbed::<Rec, f64>(&mut p, &part, stereo, total * ch, disturb);
     let got: Vec<(u64, u8, u8)> = REC_LOG.with(|l| l.borrow().clone());
     // a second pass after the end was reported: rewind / rewind_loop / set_frame restart the schedule
     // at frame k (the player resets the envelope shape first), again (frames-k)*spf samples long
@@ -781,6 +798,7 @@ pub fn run(ctx: &Ctx) -> Evidence {
         tot.sched_cases += r.sched_cases;
         tot.long_logs += r.long_logs;
         tot.second_passes += r.second_passes;
+        tot.refused_seeks += r.refused_seeks;
         tot.diff_cases += r.diff_cases;
         tot.ref_cases += r.ref_cases;
         tot.decode_cases += r.decode_cases;
@@ -799,6 +817,7 @@ pub fn run(ctx: &Ctx) -> Evidence {
     ev.add_num("schedule_cases", tot.sched_cases);
     ev.add_num("schedule_cases_with_65535_or_more_frames", tot.long_logs);
     ev.add_num("second_passes_after_rewind_or_set_frame", tot.second_passes);
+    ev.add_num("passes_with_a_refused_out_of_range_set_frame", tot.refused_seeks);
     ev.add_num("register_writes_checked", tot.events);
     ev.add_num("r13_ff_frames", tot.r13_skips);
     ev.add_num("odd_length_stereo_calls", tot.odd_stereo_calls);
